@@ -1,6 +1,23 @@
 use crate::{DbIndex, LuaType, get_real_type};
 
+/// Mutually recursive aliases (`---@alias A B|string`, `---@alias B A|number`) make the walk over union
+/// members come back to the same alias; past this depth the type is kept as it is.
+const MAX_REMOVE_TYPE_DEPTH: u32 = 10;
+
 pub fn remove_type(db: &DbIndex, source: LuaType, removed_type: LuaType) -> Option<LuaType> {
+    remove_type_with_depth(db, source, removed_type, 0)
+}
+
+fn remove_type_with_depth(
+    db: &DbIndex,
+    source: LuaType,
+    removed_type: LuaType,
+    depth: u32,
+) -> Option<LuaType> {
+    if depth >= MAX_REMOVE_TYPE_DEPTH {
+        return Some(source);
+    }
+
     if source == removed_type {
         match source {
             LuaType::IntegerConst(_) => return Some(LuaType::Integer),
@@ -76,7 +93,7 @@ pub fn remove_type(db: &DbIndex, source: LuaType, removed_type: LuaType) -> Opti
                 if type_decl.is_alias()
                     && let Some(alias_ref) = get_real_type(db, real_type)
                 {
-                    return remove_type(db, alias_ref.clone(), removed_type);
+                    return remove_type_with_depth(db, alias_ref.clone(), removed_type, depth + 1);
                 }
 
                 // 需要对`userdata`进行特殊处理
@@ -137,14 +154,14 @@ pub fn remove_type(db: &DbIndex, source: LuaType, removed_type: LuaType) -> Opti
         let types = u
             .into_vec()
             .iter()
-            .filter_map(|t| remove_type(db, t.clone(), removed_type.clone()))
+            .filter_map(|t| remove_type_with_depth(db, t.clone(), removed_type.clone(), depth + 1))
             .collect::<Vec<_>>();
         return Some(LuaType::from_vec(types));
     } else if let LuaType::Union(u) = &removed_type {
         let types = u
             .into_vec()
             .iter()
-            .filter_map(|t| remove_type(db, real_type.clone(), t.clone()))
+            .filter_map(|t| remove_type_with_depth(db, real_type.clone(), t.clone(), depth + 1))
             .collect::<Vec<_>>();
         return Some(LuaType::from_vec(types));
     }
